@@ -1418,6 +1418,21 @@ impl CodegenContext {
     }
 
     pub fn finalize(&mut self) -> CoreResult<()> {
+        // Symbols that were not defined (again) in the final pass are left-overs of an earlier pass, e.g. of a macro
+        // invocation that had a different scope number while an `.if` condition could not be evaluated yet.
+        // They are not part of the program, so they should not end up in symbol files or be found by name.
+        let final_pass = self.pass_idx;
+        let stale = self
+            .symbols
+            .all()
+            .into_iter()
+            .filter(|(_, (_, symbol))| symbol.pass_idx != final_pass)
+            .map(|(_, (nx, _))| nx)
+            .collect_vec();
+        for nx in stale {
+            self.symbols.update_data(nx, None);
+        }
+
         // If no banks were defined, define a default one
         if self.banks.is_empty() {
             self.banks
